@@ -111,8 +111,21 @@ func cmdVerify(args []string) {
 		fmt.Println("smt files in", dir)
 	}
 	bad := 0
+	if len(eng.lemmas) > 0 && len(rest) == 1 {
+		for p := range eng.pkgs {
+			keys = append(keys, "LEMMAS:"+p)
+		}
+	}
 	for _, k := range keys {
-		res := eng.verifyFunction(k)
+		var res *FuncResult
+		if strings.HasPrefix(k, "LEMMAS:") {
+			res = eng.verifyLemmas(strings.TrimPrefix(k, "LEMMAS:"), nil)
+			if res.Err != nil && strings.Contains(res.Err.Error(), "no lemmas") {
+				continue
+			}
+		} else {
+			res = eng.verifyFunction(k)
+		}
 		if res.Err != nil {
 			fmt.Printf("FUNC %s: ERROR %v\n", k, res.Err)
 			bad++
